@@ -11,7 +11,7 @@ LEVEL = "exploration"
 RULE = ("Enumerated: nser n in 1..N (N=6 quick, 12 thorough) x unit cells {R, C, L, Vcvs (4 ports), Mos, Bipolar, external modules with "
         "2/3/4 scalar ports, external modules whose ports are named like the generators' own objects (i, units, units_k, inner; also as the name of a bundle-valued port) or like attributes of an Instance (_sub, name, of), a module with a bus port, a module with a bundle port, a module with scalar ports declared in g,s,d,b order} "
         "x every ordered pair of distinct scalar unit ports as the series pair x given by name / by Signal / mixed; MosStack(n) with "
-        "default and given units; Wrapper(m) for every unit, and a second Wrapper(m) after the first wrapper was edited / exported or m itself gained a port; module units also elaborated before being handed to Series / Wrapper. Oracle: the documented chain written as a design spec (n unit instances, "
+        "default and given units; Wrapper(m) for every unit, and a second Wrapper(m) after the first wrapper was edited / exported or m itself gained a port; module units (one of them with three bundle-valued ports) also elaborated before being handed to Series / Wrapper - the generated module must list its ports in the same order with and without that history. Oracle: the documented chain written as a design spec (n unit instances, "
         "unit k's second series port and unit k+1's first on a private net, ends on the module's series ports, all other ports - bus and "
         "bundle members included - tied to the same-named module port) evaluated by the reference interpreter and compared up to "
         "isomorphism with the exported package; nser < 1 must raise. Non-trivial = n >= 3, or a unit with >= 3 ports, or a bus / bundle "
@@ -56,6 +56,15 @@ def unit_spec(u):
                        {"name": "l2", "of": ["cell", 0], "kind": "inst", "tag": 6,
                         "conns": [["a", ["bref", ["bun", "rb"], "z"]], ["b", ["sig", "n"]], ["c", ["cat", [["sig", "p"], ["bref", ["bun", "rb"], "y"]]]]]}]}
         return [leaf], [rb], [m], ["mod", 0], ["p", "n"]
+    if u == "mod_two_bundles":
+        # two bundle-valued ports (and scalar ones declared before, between and after them)
+        m = {"name": "UnitTwoBundles", "sigs": [["p", 1, "inout"], ["n", 1, "inout"]],
+             "bundles": [["bb", 0, True, False, None, "ctor"], ["cc", 0, True, True, None, "ctor"], ["dd", 0, True, False, None, "ctor"]],
+             "insts": [{"name": "l", "of": ["cell", 0], "kind": "inst", "tag": 5,
+                        "conns": [["a", ["sig", "p"]], ["b", ["bref", ["bun", "bb"], "x"]], ["c", ["cat", [["sig", "n"], ["bref", ["bun", "cc"], "y"]]]]]},
+                       {"name": "l2", "of": ["cell", 0], "kind": "inst", "tag": 6,
+                        "conns": [["a", ["bref", ["bun", "cc"], "x"]], ["b", ["bref", ["bun", "dd"], "x"]], ["c", ["cat", [["sig", "p"], ["bref", ["bun", "dd"], "y"]]]]]}]}
+        return [leaf], [BUNDLE], [m], ["mod", 0], ["p", "n"]
     if u.startswith("mod_bundle"):
         # (mod_bundle_i / _units / _inner: the bundle-valued port is named like one of the generators' own objects)
         bb = u[len("mod_bundle_"):] or "bb"
@@ -72,7 +81,7 @@ def unit_spec(u):
 
 
 UNITS = ["R", "C", "L", "Vcvs", "Mos", "Bipolar", "ext2", "ext3", "ext4", "mod_bus", "mod_bundle", "mod_gsdb",
-         "adv_i", "adv_units", "adv_elems", "adv_inner", "adv_all", "adv_special", "mod_bundle_i", "mod_bundle_units", "mod_bundle_inner", "mod_rolebundle"]
+         "adv_i", "adv_units", "adv_elems", "adv_inner", "adv_all", "adv_special", "mod_bundle_i", "mod_bundle_units", "mod_bundle_inner", "mod_rolebundle", "mod_two_bundles"]
 TAG = 7
 
 
@@ -169,6 +178,7 @@ def eval_case(case):
         else:
             m = Wrapper(unit)
         pkg = h.to_proto(m)
+        out["port_order"] = [pt.signal for pt in pkg.modules[-1].ports]
     except Exception as e:
         out.update(status="raised", sig=design.exc_bucket(e), detail="%s: %s" % (type(e).__name__, str(e)[-300:]))
         return out
@@ -243,7 +253,7 @@ def cases(tier):
 
 
 def record(res, case, v):
-    nt = case["n"] >= 3 or len(unit_spec(case["unit"])[4]) >= 3 or (case["unit"] in ("mod_bus", "mod_rolebundle") or case["unit"].startswith("mod_bundle"))
+    nt = case["n"] >= 3 or len(unit_spec(case["unit"])[4]) >= 3 or (case["unit"] in ("mod_bus", "mod_rolebundle", "mod_two_bundles") or case["unit"].startswith("mod_bundle"))
     feats = [case["kind"], "unit_" + case["unit"], "n%d" % min(case["n"], 4) + ("+" if case["n"] > 4 else "")]
     if case.get("form"):
         feats.append("form_" + case["form"])
@@ -266,6 +276,19 @@ def record(res, case, v):
     res.case(case, nt, feats)
 
 
+def with_history(run, case):
+    """eval_case, and for a unit elaborated beforehand also the same request without that history: the generated module lists
+    its ports in the same order either way."""
+    v = run(eval_case, case)
+    if par.is_exc(v) or not case.get("pre_elab") or v.get("status") in ("raised", "fail"):
+        return v
+    v0 = run(eval_case, dict(case, pre_elab=False))
+    if not par.is_exc(v0) and v0.get("port_order") is not None and v.get("port_order") != v0.get("port_order"):
+        v = dict(v, status="fail", sig="port_order_depends_on_history",
+                 detail="ports %s when the unit was elaborated before being handed over, %s when it was not" % (v.get("port_order"), v0.get("port_order")))
+    return v
+
+
 def shard(idx, n, tier):
     env.setup_paths()
     import hdl21  # noqa
@@ -274,7 +297,7 @@ def shard(idx, n, tier):
     for k, case in enumerate(cases(tier)):
         if k % n != idx:
             continue
-        v = par.pristine(eval_case, case)
+        v = with_history(par.pristine, case)
         if par.is_exc(v):
             res.harness_error("%s %s %s" % (v[1], v[2], v[3][-800:]))
             continue
@@ -283,7 +306,7 @@ def shard(idx, n, tier):
 
 
 def replay(case):
-    v = par.in_child(eval_case, case)
+    v = with_history(par.in_child, case)
     if par.is_exc(v):
         raise RuntimeError(v[2])
     r = core.Result()
